@@ -481,3 +481,128 @@ def gen_program(rng, size=3, handler_errors=False):
         t = rng.choice(TEMPLATES)
         return t(rng, feats), feats
     return gen_random(rng, size, feats, handler_errors=handler_errors), feats
+
+
+# ---------------------------------------------------------------------------------------------------------
+# Shrinker (delta debugging on the s-expression tree): used by the check to minimise a disagreement
+# ---------------------------------------------------------------------------------------------------------
+
+def _tokenize(s):
+    out, i, n = [], 0, len(s)
+    while i < n:
+        ch = s[i]
+        if ch.isspace():
+            i += 1
+        elif ch == ";":
+            while i < n and s[i] != "\n":
+                i += 1
+        elif ch in "()[]":
+            out.append("(" if ch in "([" else ")")
+            i += 1
+        elif ch == "'":
+            out.append("'")
+            i += 1
+        elif ch == '"':
+            j = i + 1
+            while j < n and s[j] != '"':
+                j += 2 if s[j] == "\\" else 1
+            out.append(s[i:j + 1])
+            i = j + 1
+        else:
+            j = i
+            while j < n and not s[j].isspace() and s[j] not in "()[]'\";":
+                j += 1
+            out.append(s[i:j])
+            i = j
+    return out
+
+
+def parse_forms(s):
+    toks = _tokenize(s)
+    pos = [0]
+
+    def rd():
+        t = toks[pos[0]]
+        pos[0] += 1
+        if t == "(":
+            xs = []
+            while toks[pos[0]] != ")":
+                xs.append(rd())
+            pos[0] += 1
+            return xs
+        if t == "'":
+            return ["quote", rd()]
+        return t
+    forms = []
+    while pos[0] < len(toks):
+        forms.append(rd())
+    return forms
+
+
+def unparse(x):
+    if isinstance(x, list):
+        if len(x) == 2 and x[0] == "quote":
+            return "'" + unparse(x[1])
+        return "(" + " ".join(unparse(y) for y in x) + ")"
+    return x
+
+
+def _candidates(x):
+    """Smaller replacements of the expression x."""
+    if not isinstance(x, list) or not x or x[0] == "quote":
+        return
+    yield "0"
+    for y in x[1:]:
+        if isinstance(y, list) and y and y[0] not in ("quote",) and not (x[0] in ("lambda", "define", "let", "let*") and y is x[1]):
+            yield y
+    if x[0] == "lambda" and len(x) > 2:
+        return
+    if len(x) > 2 and x[0] in ("begin", "+", "-", "*", "list"):
+        for i in range(1, len(x)):
+            yield x[:i] + x[i + 1:]
+
+
+def shrink(text, still_fails, max_tests=400):
+    """Greedy reduction of a program; `still_fails(text)` must be true for the result."""
+    forms = parse_forms(text)
+    tests = [0]
+
+    def ok(fs):
+        tests[0] += 1
+        if tests[0] > max_tests:
+            return False
+        try:
+            return still_fails("\n".join(unparse(f) for f in fs))
+        except Exception:
+            return False
+    changed = True
+    while changed and tests[0] <= max_tests:
+        changed = False
+        # drop whole forms (never the last one, the observation)
+        i = 0
+        while i < len(forms) - 1:
+            cand = forms[:i] + forms[i + 1:]
+            if ok(cand):
+                forms = cand
+                changed = True
+            else:
+                i += 1
+        # replace sub-expressions
+        def walk(path_get, path_set, x):
+            nonlocal forms, changed
+            if not isinstance(x, list):
+                return
+            for c in _candidates(x):
+                old = path_get()
+                path_set(c)
+                if ok(forms):
+                    changed = True
+                    walk(path_get, path_set, c)
+                    return
+                path_set(old)
+            for j in range(len(x)):
+                if isinstance(x[j], list):
+                    walk(lambda x=x, j=j: x[j], lambda v, x=x, j=j: x.__setitem__(j, v), x[j])
+        for i in range(len(forms)):
+            walk(lambda i=i: forms[i], lambda v, i=i: forms.__setitem__(i, v), forms[i])
+    return "\n".join(unparse(f) for f in forms)
